@@ -73,7 +73,7 @@ enum {
     OP_FD_OPEN, OP_FD_WRITE, OP_FD_CLOSE, OP_FD_REG, OP_FD_DEREG, OP_TMR_REG, OP_TMR_DEREG, OP_SGN_REG, OP_SGN_DEREG, OP_RAISE,
     OP_PATH_REG, OP_PATH_DEREG, OP_TOUCH, OP_PID_REG, OP_PID_DEREG, OP_CHILD_SPAWN, OP_CHILD_KILL, OP_TASK_REG, OP_TASK_DEREG,
     OP_THRESH_REG, OP_THRESH_DEREG, OP_SRCLEN, OP_MSTATS, OP_LOOKUP, OP_EVT_RETAIN, OP_EVT_RELEASE, OP_EVT_CHECK, OP_MOD_REF, OP_MOD_UNREF,
-    OP_SLEEP, OP_ERRNO, OP_QUIESCE, OP_MOD_LOG, OP_MOD_DUMP, OP_NAMEOF, OP_FD_HUP, OP_OBS_DROP_KEEP, OP_BIND, OP_SIG_UNMASK, OP_MAX
+    OP_SLEEP, OP_ERRNO, OP_QUIESCE, OP_MOD_LOG, OP_MOD_DUMP, OP_NAMEOF, OP_FD_HUP, OP_OBS_DROP_KEEP, OP_BIND, OP_SIG_UNMASK, OP_FAULT, OP_MAX
 };
 static const char *opnames[OP_MAX] = {
     "none", "ctx_register", "ctx_deregister", "ctx_loop", "ctx_dispatch", "ctx_dispatch_until", "ctx_quit", "ctx_finalize",
@@ -83,7 +83,7 @@ static const char *opnames[OP_MAX] = {
     "fd_open", "fd_write", "fd_close", "fd_reg", "fd_dereg", "tmr_reg", "tmr_dereg", "sgn_reg", "sgn_dereg", "raise",
     "path_reg", "path_dereg", "touch", "pid_reg", "pid_dereg", "child_spawn", "child_kill", "task_reg", "task_dereg",
     "thresh_reg", "thresh_dereg", "srclen", "mstats", "lookup", "evt_retain", "evt_release", "evt_check", "mod_ref", "mod_unref",
-    "sleep", "errno", "quiesce", "mod_log", "mod_dump", "nameof", "fd_hup", "obs_drop_keep_handle", "bind", "sig_unmask",
+    "sleep", "errno", "quiesce", "mod_log", "mod_dump", "nameof", "fd_hup", "obs_drop_keep_handle", "bind", "sig_unmask", "fault",
 };
 
 typedef struct { int op; long long a[6]; int na; } op_t;
@@ -610,6 +610,7 @@ static long long do_op(op_t *o) {
     return ret;
 }
 
+static long pending_fault;
 static void run_ops(script_t *s) {
     for (int i = 0; i < s->nops; i++) {
         op_t *o = &s->ops[i];
@@ -636,9 +637,23 @@ static void run_ops(script_t *s) {
         args[n] = 0;
         tr("> %llu %d %s%s", id, depth, opnames[o->op], args);
         cur_call = id;
+        if (o->op == OP_FAULT) {        /* "fault k": the k-th allocation made by the NEXT operation fails */
+            pending_fault = o->a[0];
+            tr("< %llu 0 0", id);
+            continue;
+        }
+        long armed = pending_fault;
+        pending_fault = 0;
+#ifndef VF_NO_LEDGER
+        if (armed > 0) vf_fault_arm(armed);
+#endif
         if (o->op != OP_ERRNO) errno = 0;
         long long r = do_op(o);
         int e = errno;
+#ifndef VF_NO_LEDGER
+        if (armed > 0) { bool fired = vf_fault_disarm(); tr("< %llu %lld %d fault=%d", id, r, e, fired ? 1 : 0); }
+        else
+#endif
         tr("< %llu %lld %d", id, r, e);
         observe();
     }
